@@ -97,3 +97,15 @@ Proof.
     rewrite E. reflexivity.
   - rewrite (weekday_contradiction_rejected s f Hv Hl Hr Hval Hw Hrep). reflexivity.
 Qed.
+
+(** never a trap on the generator grammar (valid, representable fields; any day of week) *)
+Theorem reader_total_on_grammar s f : utf8_valid s = true -> blen s <= u64_max ->
+  recognise s = Some f -> valid f = true -> representable f = true ->
+  exists r, parse_from_rfc2822 s = Val r.
+Proof.
+  intros Hv Hl Hr Hval Hrep. unfold parse_from_rfc2822.
+  rewrite (scan_complete s f Hv Hl Hr Hval (representable_year f Hrep)). cbv [pbind bind].
+  rewrite parsed_of_resolve. destruct (weekday_ok f) eqn:Hw.
+  - destruct (to_datetime_fields f Hval Hrep (recognise_nonneg s f Hr) Hw) as (z & Hz & _). rewrite Hz. eexists; reflexivity.
+  - rewrite (to_datetime_weekday_contradiction f Hval Hrep (recognise_nonneg s f Hr) Hw). eexists; reflexivity.
+Qed.
